@@ -15,8 +15,24 @@ arg = "C19"
     Oracle (real files only): round trip bit-for-bit, shapes, dtypes; every earlier entry unchanged
     (raw JSON level) and key order kept after a save under a new name; file bytes unchanged after a
     save under an existing name.
+    Saves that legitimately RAISE (every second history): metadata json cannot write — a dict with tuple /
+    bytes / frozenset keys (also nested in a list), a circular reference (both raise PART-WAY through the
+    dump, after the matrices were written out), a Namespace without `func` (raises before anything is
+    written) — `poison_output`.  "Leaves every earlier entry unchanged" then means: data.json is byte-identical
+    to what it was (absent stays absent or becomes a valid JSON object) and every earlier entry still reads
+    back (key `save_json:failed-save-changes-file`).  The model has no raising save: no `store save` line
+    is sent for it, the following `names / dump / lookup` lines show the store is what it was.  (A poisoned
+    save under an EXISTING name returns before serialising anything and is an ordinary `kept`.)
+    A handful of histories (3 quick / 25 thorough; plotting is slow) go through the real
+    `save(model_dir, name, output)` with ALL SAVERS (matplotlib Agg; the data-plot saver runs before the json
+    saver) with NaN and +-inf cells guaranteed in the gap matrix (`nonfinite`); what is read back is compared
+    with a copy of the matrices taken BEFORE the call.  `save()` under an existing name raises FileExistsError
+    in save_draw_coalitions (documented below): tolerated, data.json must be unchanged.
+    After EVERY save (all routes) the caller's Output must still hold what it held: both matrices bit for
+    bit, parsed arguments the same objects with the same repr (key `save:modifies-caller-output`).
     non-trivial = a history with a repeated name, at least two distinct names and at least one NaN
-    cell; distinct by history index.  For commands: every run (distinct by command+configuration).
+    cell; distinct by history index (save() histories: at least two names; distinct by index).  For
+    commands: every run (distinct by command+configuration).
 
 arg = "C20"
     The file-system operations of the REAL `save_json` are OBSERVED (not assumed) and a failure is
@@ -47,6 +63,17 @@ arg = "C20"
     target are read with the unpatched functions.
     k ranges over 0 .. len(ops): before anything, after every operation (after the open, after every
     written chunk, before close, before / after the rename), and the uninterrupted save.
+    A rename that FAILS with OSError (EXDEV) is not recorded: nothing happened on disk; what the code does
+    instead (`shutil.move`: open the target truncating, sendfile, unlink the source) is recorded as usual.
+
+    Where things live (`c20_dirs`).  The results directory is under /tmp; `tempfile.tempdir` is pointed at a
+    scratch directory next to it for the duration, so "the system temp directory" of the code under test is on
+    the SAME file system as those results directories and whatever a crashed save leaves there is removed.
+    Every fourth save (case["fs"] = "other") has its results directory on a DIFFERENT file system (first
+    writable of /dev/shm, /var/tmp, the home directory, /verif/.. whose st_dev differs; a note is recorded
+    when there is none and the case then runs on the same file system): a save that stages the new content
+    in the temp directory cannot rename it into place there, and the recorder sees the truncating open of
+    the target (key `save_json:temp-then-overwrite-target`).  All directories are removed afterwards.
 
     Model tie: `store crash <target> <initial files> <ops…>` → `atomicB` and the predicted content class
     of the target for every k (old / new / absent / lit:<hex>); the implementation's answer is the same
@@ -360,6 +387,8 @@ def c19_history(res: StreamResult, script: Script | None, d: Path, sid: str, sav
         try:
             if via == "full":
                 import warnings
+                import matplotlib
+                matplotlib.use("Agg")
                 with warnings.catch_warnings(), np.errstate(all="ignore"):
                     warnings.simplefilter("ignore")      # np.std of a row with inf, matplotlib on non-finite limits
                     S.save(d, name, out)
@@ -522,8 +551,6 @@ def run_c19(tier, budget: Budget, rnd) -> StreamResult:
         # ------------------------------------------------------------------ save() with ALL savers (plots are slow: a handful)
         nfull = 3 if tier == "quick" else 25
         if budget.left() > (14 if tier == "quick" else 90):
-            import matplotlib
-            matplotlib.use("Agg")
             for h in range(nfull):
                 if budget.left() < (12 if tier == "quick" else 60):
                     res.notes.append(f"budget: stopped after {h} save() histories")
@@ -739,6 +766,7 @@ class Recorder:
         self.ops: list[tuple] = []
         self.crash_at = crash_at
         self.dead = False
+        self.failed_renames = 0
         self.fds: dict[int, dict] = {}
 
     # ---- paths
@@ -839,9 +867,18 @@ class Recorder:
         def f(src, dst, *, src_dir_fd=None, dst_dir_fd=None):
             rs = self.rel(src, True) if src_dir_fd is None else None
             rd = self.rel(dst, True) if dst_dir_fd is None else None
-            if rs is not None or rd is not None:
-                self.step(("mv", rs or "unknown", rd or "unknown"))
-            return _real[which](src, dst, src_dir_fd=src_dir_fd, dst_dir_fd=dst_dir_fd)
+            if rs is None and rd is None:
+                return _real[which](src, dst, src_dir_fd=src_dir_fd, dst_dir_fd=dst_dir_fd)
+            self.step(("mv", rs or "unknown", rd or "unknown"))
+            try:
+                return _real[which](src, dst, src_dir_fd=src_dir_fd, dst_dir_fd=dst_dir_fd)
+            except OSError:
+                # the rename did not happen (e.g. EXDEV: source and target on different file systems — `shutil.move` then falls
+                # back to copy + unlink): nothing changed on disk, so no operation is recorded for it; whatever the code does
+                # instead is recorded as usual (in a crashed run the attempt counts as the crash point before the next operation)
+                self.ops.pop()
+                self.failed_renames += 1
+                raise
         return f
 
     def os_unlink(self, which):
@@ -1151,8 +1188,44 @@ def crash_run(hist: Path, work: Path, case: dict, k: int | None):
     return rec.ops, cur, crashed, err, others
 
 
+OTHER_FS_CANDIDATES = ["/dev/shm", "/var/tmp", str(Path.home()), str(Path(__file__).resolve().parent.parent.parent)]
+
+
+@contextmanager
+def c20_dirs(prefix: str):
+    """→ (base, other): `base` under /tmp; `tempfile.gettempdir()` is pointed at `base/systmp` for the duration (same file system as
+    `base` by construction; whatever the code under test leaves in "the system temp directory" is removed with `base`); `other` = a
+    fresh directory on a DIFFERENT file system than `base` (st_dev differs), or None when no candidate is available and writable.
+    Everything created here is removed on exit."""
+    base = Path(tempfile.mkdtemp(prefix=prefix, dir="/tmp"))
+    saved = tempfile.tempdir
+    other = None
+    try:
+        (base / "systmp").mkdir()
+        tempfile.tempdir = str(base / "systmp")
+        dev = os.stat(base).st_dev
+        for cand in OTHER_FS_CANDIDATES:
+            try:
+                if os.path.isdir(cand) and os.stat(cand).st_dev != dev and os.access(cand, os.W_OK | os.X_OK):
+                    other = Path(tempfile.mkdtemp(prefix=prefix, dir=cand))
+                    (other / "probe").write_bytes(b"x")
+                    (other / "probe").unlink()
+                    break
+            except OSError:
+                if other is not None:
+                    shutil.rmtree(other, ignore_errors=True)
+                    other = None
+        yield base, other
+    finally:
+        tempfile.tempdir = saved
+        shutil.rmtree(base, ignore_errors=True)
+        if other is not None:
+            shutil.rmtree(other, ignore_errors=True)
+
+
 def c20_case(res: StreamResult | None, script: Script | None, base: Path, case: dict, tag: str):
-    """one save: observe, then crash at every operation.  Returns the list of oracle failures."""
+    """one save: observe, then crash at every operation.  Returns the list of oracle failures.
+    `base` = where the results directory lives (for case["fs"] == "other": on another file system than the temp directory)"""
     hist = base / f"{tag}_hist"
     build_history(hist, case)
     t = hist / TARGET
@@ -1224,17 +1297,23 @@ def replay_dict(case: dict, k: int | None, ops: list[tuple], what: str) -> dict:
             "what": what,
             "how": "build the history with save_json (case.earlier → run-0..), then call save_json(dir/'data.json', case.name, "
                    "det_output(case.new)) and kill the process after the first `crash_after_operations` file-system operations; "
+                   + ("the results directory `dir` must be on a DIFFERENT file system than tempfile.gettempdir() (e.g. dir under /dev/shm, "
+                      "temp dir under /tmp); " if case.get("fs") == "other" else "") +
                    "equivalently: `check.py C20 --replay <this file>`"}
 
 
 def run_c20(tier, budget: Budget, rnd) -> StreamResult:
     res = StreamResult("store-c20")
     script = Script()
-    base = Path(tempfile.mkdtemp(prefix="verif_c20_", dir="/tmp"))
     nsaves = 24 if tier == "quick" else 300
     seen_keys = set()
     all_ops = []
-    try:
+    with c20_dirs("verif_c20_") as (base, other):
+        if other is None:
+            res.notes.append("no writable directory on a file system other than the temp directory's among "
+                             f"{OTHER_FS_CANDIDATES}: the cross-file-system cases ran on the same file system")
+        else:
+            res.count(f"other-file-system:{other.parent}")
         for i in range(nsaves):
             if budget.left() < (8 if tier == "quick" else 60):
                 res.notes.append(f"budget: stopped after {i} saves")
@@ -1246,7 +1325,12 @@ def run_c20(tier, budget: Budget, rnd) -> StreamResult:
                     "new": {"rows": dims[0], "cols": dims[1], "seed": rnd.randint(0, 10 ** 6)},
                     "name": rnd.choice(["new-run", "ü", "run-0" if rnd.random() < 0.3 else "zz"]),
                     "stale_tmp": (["long", True, False, False, False][i % 5] if i < 10 else rnd.choice(["long", True, False, False, False]))}
-            failures, ops = c20_case(res, script, base, case, f"c{i}")
+            # where the results directory lives: every fourth save on another file system than the temp directory (a save that
+            # stages its new content in the temp directory can then not rename it into place)
+            if i % 4 == 1:
+                case["fs"] = "other"
+            res.count("results-dir:" + ("other-file-system" if case.get("fs") == "other" and other is not None else "same-file-system"))
+            failures, ops = c20_case(res, script, other if case.get("fs") == "other" and other is not None else base, case, f"c{i}")
             all_ops.append(ops)
             nchunks = sum(1 for o in ops if o[0] == "w")
             res.count(f"earlier:{earlier}")
@@ -1264,8 +1348,6 @@ def run_c20(tier, budget: Budget, rnd) -> StreamResult:
                     res.violation(what, replay_dict(case, k, ops, what), key=key)
         if tier == "thorough" and budget.left() > 90:
             strace_crosscheck(res, base, rnd)
-    finally:
-        shutil.rmtree(base, ignore_errors=True)
     # ---- model side
     bad = script.diff()
     for b in bad:
@@ -1434,8 +1516,7 @@ def search(tier, budget: Budget, rnd, arg, disagreements) -> list[dict]:
     found: list[dict] = []
     if arg != "C20":
         return found
-    base = Path(tempfile.mkdtemp(prefix="verif_c20s_", dir="/tmp"))
-    try:
+    with c20_dirs("verif_c20s_") as (base, other):
         for i in range(40):
             if not budget.ok() or found:
                 break
@@ -1443,11 +1524,11 @@ def search(tier, budget: Budget, rnd, arg, disagreements) -> list[dict]:
                                 for _ in range(rnd.randint(0, 6))],
                     "new": {"rows": rnd.randint(1, 80), "cols": rnd.randint(1, 60), "seed": rnd.randint(0, 10 ** 6)},
                     "name": "new-run", "stale_tmp": rnd.choice(["long", True, False])}
-            failures, ops = c20_case(None, None, base, case, f"s{i}")
+            if i % 2 == 1 and other is not None:
+                case["fs"] = "other"
+            failures, ops = c20_case(None, None, other if case.get("fs") == "other" else base, case, f"s{i}")
             for what, k, key in failures[:1]:
                 found.append({"what": what, "replay": replay_dict(case, k, ops, what), "key": key})
-    finally:
-        shutil.rmtree(base, ignore_errors=True)
     return found
 
 
@@ -1470,10 +1551,14 @@ def replay(prop: str, payload: dict):
         return False, "the replayed input no longer violates the property (" + "; ".join(res.notes)[:200] + ")"
     if prop != "C20" or "case" not in inp:
         return False, "the replay file holds the complete failing input; no re-runner for this kind"
-    base = Path(tempfile.mkdtemp(prefix="verif_c20r_", dir="/tmp"))
-    try:
+    with c20_dirs("verif_c20r_") as (base, other):
         case = inp["case"]
         k = inp.get("crash_after_operations")
+        if case.get("fs") == "other":
+            if other is None:
+                return False, ("the failing input needs a results directory on another file system than the temp directory; none of "
+                               f"{OTHER_FS_CANDIDATES} qualifies on this machine")
+            base = other
         hist = base / "hist"
         build_history(hist, case)
         t = hist / TARGET
@@ -1494,5 +1579,3 @@ def replay(prop: str, payload: dict):
                f"{'absent' if old is None else str(len(old)) + ' bytes'}, complete new {len(new) if new else 0} bytes; "
                f"old-or-new={ok}, parses-and-keeps-earlier-runs={parses}")
         return (not ok or not parses), msg
-    finally:
-        shutil.rmtree(base, ignore_errors=True)
